@@ -54,6 +54,7 @@ type proxy struct {
 	accepts atomic.Int32
 	refuse  atomic.Bool // accept and close at once (an RST-like refusal that is still counted)
 	opnFail atomic.Bool // let HEL/ACK through and cut the connection when the client sends OpenSecureChannel
+	opnHole atomic.Bool // let HEL/ACK through and swallow the client's OpenSecureChannel: the connection stays open, no answer
 }
 
 func newProxy(target string) (*proxy, error) {
@@ -101,6 +102,12 @@ func (p *proxy) serve(c net.Conn) {
 			}
 			if n >= 3 && src == c && string(buf[:3]) == "OPN" && p.opnFail.Load() {
 				break // the client's OpenSecureChannel request is dropped with the connection
+			}
+			if n >= 3 && src == c && string(buf[:3]) == "OPN" && p.opnHole.Load() {
+				if err != nil {
+					break
+				}
+				continue // swallowed: the client waits for an answer that never comes
 			}
 			if n > 0 {
 				if _, werr := dst.Write(buf[:n]); werr != nil {
@@ -302,10 +309,14 @@ func runScenario(sc string) (events []string, extra string) {
 	// ch: the states are also delivered through StateChangedCh and recorded as "f.ch <State>"
 	// c:opnfail / c:down: the first Connect is made while that fault is active (it fails), then the
 	// fault is lifted and Connect is called again on the same client
-	useCh, connectFault := false, ""
-	for len(steps) > 0 && (steps[0] == "ch" || strings.HasPrefix(steps[0], "c:") || strings.HasPrefix(steps[0], "#")) {
+	useCh, connectFault, cancelConnectCtx := false, "", false
+	for len(steps) > 0 && (steps[0] == "ch" || steps[0] == "cctx" || strings.HasPrefix(steps[0], "c:") || strings.HasPrefix(steps[0], "#")) {
 		if steps[0] == "ch" {
 			useCh = true
+		} else if steps[0] == "cctx" {
+			// Connect gets its own context which is cancelled as soon as Connect has returned (the usual
+			// `ctx, cancel := context.WithTimeout(...); defer cancel()`): connection and monitor must survive that
+			cancelConnectCtx = true
 		} else if strings.HasPrefix(steps[0], "c:") {
 			connectFault = steps[0][2:]
 		}
@@ -409,11 +420,18 @@ func runScenario(sc string) (events []string, extra string) {
 		time.Sleep(30 * time.Millisecond)
 	}
 	tr.add("u.connect")
-	if err := c.Connect(ctx); err != nil {
+	cctx, ccancel := context.WithCancel(ctx)
+	if err := c.Connect(cctx); err != nil {
+		ccancel()
 		tr.add("u.connect.err")
 		return tr.snapshot(), "connect failed: " + err.Error()
 	}
 	tr.add("u.connect.ok")
+	if cancelConnectCtx {
+		ccancel()
+		tr.add("f.connectctx.cancelled")
+	}
+	defer ccancel()
 
 	closed := false
 	doClose := func() {
@@ -480,6 +498,15 @@ func runScenario(sc string) (events []string, extra string) {
 			px.cut()
 			time.Sleep(ms(st[7:]))
 			px.opnFail.Store(false)
+			tr.add("f.up")
+		case strings.HasPrefix(st, "blackhole"):
+			// the server side accepts TCP and answers HEL/ACK but never answers OpenSecureChannel
+			tr.add("f.blackhole")
+			px.opnHole.Store(true)
+			px.cut()
+			time.Sleep(ms(st[9:]))
+			px.opnHole.Store(false)
+			px.cut() // the half-open attempts of the outage end with it
 			tr.add("f.up")
 		case st == "waitclosed":
 			deadline := time.Now().Add(5 * time.Second)
@@ -557,6 +584,16 @@ func runScenario(sc string) (events []string, extra string) {
 				tr.add("f.finalread." + map[bool]string{true: "ok", false: "err"}[err == nil])
 				if err != nil {
 					res = "final read: " + err.Error()
+				} else {
+					// the recovered connection must stay up: no further state report without a new fault
+					n0 := len(tr.snapshot())
+					time.Sleep(300 * time.Millisecond)
+					for _, e := range tr.snapshot()[n0:] {
+						if strings.HasPrefix(e, "st ") {
+							tr.add("f.unstable " + strings.TrimPrefix(e, "st "))
+							break
+						}
+					}
 				}
 			}
 		} else {
@@ -641,6 +678,10 @@ func scenarios(o *h.Opts, rnd *h.Rand) []string {
 		"auto=0 ch #6 w10 cut waitclosed",
 		"auto=1 ch w30 cut w60",
 		"auto=1 w30 cutAt:done cut w150",
+		"auto=1 w30 blackhole2300 w30",
+		"auto=1 cctx w60",
+		"auto=1 cctx w30 cut w50",
+		"auto=0 cctx w60",
 		"auto=1 w30 closeAt:createSecureChannel cut trap w100",
 		"auto=1 w30 closeAt:restoreSession cut trap w100",
 		"auto=1 w30 closeAt:restoreSubscriptions cut trap w100",
@@ -849,9 +890,16 @@ func main() {
 		var chStates []string
 		chClosedBeforeClose, sawMonitorDisc := false, false
 		lastFaultIdx, lastDialIdx := -1, -1
+		sawConnectOk, sawAbort := false, false
 		for ei, e := range marks {
+			if e == "u.connect.ok" {
+				sawConnectOk = true
+			}
+			if e == "m.action abortReconnect" {
+				sawAbort = true // the documented non-recoverable case (connection refused as channel error)
+			}
 			switch e {
-			case "f.cut", "f.down", "f.rst", "f.stall", "f.restart", "f.opnfail", "f.cutAtDone":
+			case "f.cut", "f.down", "f.rst", "f.stall", "f.restart", "f.opnfail", "f.cutAtDone", "f.blackhole":
 				lastFaultIdx = ei
 			case "dial":
 				lastDialIdx = ei
@@ -865,7 +913,7 @@ func main() {
 				}
 			case e == "f.cutAtDone":
 				lostInDrain = true
-			case e == "f.cut" || e == "f.down" || e == "f.rst" || e == "f.stall" || e == "f.restart" || e == "f.opnfail":
+			case e == "f.cut" || e == "f.down" || e == "f.rst" || e == "f.stall" || e == "f.restart" || e == "f.opnfail" || e == "f.blackhole":
 				faultSinceConnected = true
 			case e == "u.close":
 				userClosed = true
@@ -879,6 +927,9 @@ func main() {
 				if x == "Connected" {
 					// a fault injected after the last dial may have hit the connection that is being reported now
 					faultSinceConnected = lastFaultIdx > lastDialIdx
+				}
+				if x == "Closed" && auto == "1" && !userClosed && sawConnectOk && !sawAbort {
+					r.Fail(sc, "", "auto-reconnect on and Close not called, but the client reported Closed by itself")
 				}
 				if x == "Disconnected" {
 					sawMonitorDisc = true
@@ -912,6 +963,8 @@ func main() {
 					r.Fail(sc, sig, "state "+x+" reported after Close returned")
 				}
 				last = x
+			case strings.HasPrefix(e, "f.unstable"):
+				r.Fail(sc, "", "the recovered connection did not stay up: the client reported "+strings.TrimPrefix(e, "f.unstable ")+" within 300 ms of a successful Read without any new fault")
 			case strings.HasPrefix(e, "f.healed.notconnected"):
 				r.Fail(sc, "", "auto-reconnect on, server reachable again, but the client did not return to Connected within 15 s: "+e)
 			case e == "f.finalread.err":
